@@ -8,6 +8,7 @@ from engine import native, containers
 from harness.c17 import sref, iref, coord_str
 from harness.c07 import WS, new_sheet
 
+KINDS = ['url', 'blank', 'location']
 class Events:
     def __init__(self): self.tags = []
 def install_recorders(it, ev):
@@ -32,19 +33,22 @@ class Hyperlinks(Harness):
     entry = ['writer::xlsx::worksheet::write', 'writer::xlsx::worksheet_rels::write', WS + 'get_hyperlink_collection_to_hashmap']
     def __init__(self, tier):
         self.n = 2 if tier == 'quick' else 3
-        self.doc = 'the real sheet-part writer and relationship-part writer on a worksheet with %d hyperlinked cells, with the XML driver replaced by an event recorder and every HashMap iteration taking a solver-chosen order: each r:id of the sheet part resolves to the URL of its own cell' % self.n
-        self.bounds = {'hyperlinks': self.n, 'hash_map_iteration_order': 'every permutation, chosen independently per iteration', 'sub_writers': 'stubbed (no output): everything except the hyperlinks block and the relationship loop'}
+        self.doc = 'the real sheet-part writer and relationship-part writer on a worksheet with %d hyperlinked cells (each an external link, an external link with an empty address, or an internal location), with the XML driver replaced by an event recorder and every HashMap iteration taking a solver-chosen order: each r:id of the sheet part resolves to the URL of its own cell' % self.n
+        self.bounds = {'hyperlinks': self.n, 'kinds': KINDS, 'hash_map_iteration_order': 'every permutation, chosen independently per iteration', 'sub_writers': 'stubbed (no output): everything except the hyperlinks block and the relationship loop'}
     def run(self, it, ctx, res):
         ev_sheet, ev_rels = Events(), Events()
         it.hash_order = 'symbolic'; it._hm_iter = 0
         try:
             ws = new_sheet(it)
-            urls = {}
+            urls = {}; kinds = []
             for i in range(self.n):
+                ki = ctx.sym_int('kind%d' % i, 0, 2); kind = KINDS[next(k for k in range(3) if ctx.branch(ki == k))]; kinds.append(kind)
                 cell = it.call(WS + 'get_cell_mut::<(u32, u32)>', [Ref(ws), [1, i + 1]])
                 h = it.call('structs::cell::Cell::get_hyperlink_mut', [cell])
-                it.call('structs::hyperlink::Hyperlink::set_url::<&str>', [h, sref('u%d' % (i + 1))])
-                urls['A%d' % (i + 1)] = 'u%d' % (i + 1)
+                u = '' if kind == 'blank' else 'u%d' % (i + 1)
+                it.call('structs::hyperlink::Hyperlink::set_url::<&str>', [h, sref(u)])
+                if kind == 'location': it.call('structs::hyperlink::Hyperlink::set_location', [h, True])
+                urls['A%d' % (i + 1)] = (kind, u)
             sst = Box_(it.call('<structs::shared_string_table::SharedStringTable as std::default::Default>::default', []))
             sty = Box_(it.call('<structs::stylesheet::Stylesheet as std::default::Default>::default', []))
             install_recorders(it, ev_sheet)
@@ -60,17 +64,27 @@ class Hyperlinks(Harness):
         ok = len(links) == self.n
         pairs = {}
         for l in links:
-            ref = pstr(SStr(l['ref'])); rid = pstr(SStr(l.get('r:id', [])))
-            pairs[ref] = rels.get(rid)
-        info = {'pairs': pairs, 'orders': {k: v for k, v in []}}
-        self.oblige(ctx, res, 'r:id-resolves-to-own-target', ok and all(pairs.get(c) == u for c, u in urls.items()), info=info)
+            ref = pstr(SStr(l['ref']))
+            if 'location' in l: pairs[ref] = ('location', pstr(SStr(l['location'])), 'r:id' in l)
+            else: pairs[ref] = ('external', rels.get(pstr(SStr(l.get('r:id', [])))), True)
+        info = {'pairs': {k: list(v) for k, v in pairs.items()}, 'kinds': kinds}
+        def good(c, kind, u):
+            got = pairs.get(c)
+            if got is None: return False
+            return got == ('location', u, False) if kind == 'location' else got == ('external', u, True)
+        self.oblige(ctx, res, 'r:id-resolves-to-own-target', ok and all(good(c, k, u) for c, (k, u) in urls.items()), info=info)
+        n_ext = sum(1 for k in kinds if k != 'location')
+        self.oblige(ctx, res, 'one-relationship-per-external-link', len(rels) == n_ext, info=dict(info, relationships=len(rels)))
     def case_of(self, v):
-        c = {'hyperlinks': self.n, 'pairs': v['info'].get('pairs'), 'orders': {k: val for k, val in v['model'].items() if k.startswith('hash_order')}}
+        kinds = [KINDS[v['model'].get('kind%d' % i, 0)] for i in range(self.n)]
+        c = {'hyperlinks': self.n, 'kinds': kinds, 'pairs': v['info'].get('pairs'), 'orders': {k: val for k, val in v['model'].items() if k.startswith('hash_order')}}
         c['show'] = dict(c); return c
     def confirm(self, case, profile):
         # the iteration order of a real HashMap is not under our control: repeat the save until a mismatch shows (or give up)
+        kinds = list(case.get('kinds') or [])
+        kinds = ','.join(kinds + ['url'] * (max(case['hyperlinks'], 4) - len(kinds)))
         for _ in range(12):
-            r = native.run_cases([['hyperlink_roundtrip', max(case['hyperlinks'], 4)]], profile, timeout_each=60)[0]
+            r = native.run_cases([['hyperlink_roundtrip', max(case['hyperlinks'], 4), kinds]], profile, timeout_each=60)[0]
             if r[0] != 'ok': return True, 'hyperlink round trip -> %r' % (r,)
             wrong = native.unhx(r[1][0])
             if wrong: return True, 'cells whose hyperlink target changed after save and reload: %s' % wrong
